@@ -163,6 +163,77 @@ def win_recursion_stack(rng, depth):
     return case, exp
 
 
+WIN_PROGRAM_PLAIN = "$T0 .raSearchStart = $eip $T0 ^ = $esp $T0 4 + ="
+
+
+def win_scan_mix_stack(rng, depth):
+    """x86 thread with the technique chosen PER FRAME among: stack scanning (the function has a FUNC record with a
+    parameter size but no unwind data, and %ebp is 0 / unknown, so the frame-pointer technique gives up), STACK WIN frame
+    data, STACK WIN FPO, both kinds with different parameter sizes, STACK CFI.  Frame i holds
+    [arguments pushed for its callee = parameter size of function i-1][locals][saved regs][return address]: the arguments
+    are there whatever technique recovered frame i, so the function i+1 must come out by the plain formula also when
+    frame i was found by scanning and function i-1 takes stack parameters (FUNC or STACK WIN parameter size).
+    Words of a scanned frame never look like return addresses; the word below a scanned return address is 0 (no %ebp
+    recovery), every other skipped slot holds look-alikes.  Returns (case line, expected callers)."""
+    A = ARCH[0]
+    mb = 0x40000000
+    base = 0x80000000
+    os_ = rng.choice([1, 1, 0])
+    nfun = depth + 1
+    funs = []
+    for i in range(nfun):
+        kind = rng.choice(["none", "none", "fd", "fd", "fpo", "both", "cfi"])
+        if i == 0 and rng.chance(1, 2):
+            kind = "none"
+        saved = rng.choice([0, 4, 8])
+        funs.append(dict(off=0x1000 + 0x200 * i, kind=kind, params=rng.choice([0, 4, 8, 12]), stale=rng.choice([0, 4, 16]),
+                         fpsize=rng.choice([0, 4, 8, 12]), saved=saved if kind != "none" else 0, locals=4 * rng.range(0, 8)))
+
+    def eff_params(f):      # what fill_symbol records for a frame in this function: frame data > FPO > FUNC
+        return f["params"] if f["kind"] in ("fd", "both", "fpo") else f["fpsize"]
+    code = lambda i: mb + funs[i]["off"] + 0x10 + 4 * rng.below(32)
+    lookalike = lambda: rng.choice([mb + funs[rng.below(nfun)]["off"] + 0x20, base + 4 * rng.below(64), rng.below(1 << 32), 0x11110000 + rng.below(100)])
+    inert = lambda: rng.choice([0, 0, base + 4 * rng.below(64), 0x11110000 + rng.below(100), 1 + rng.below(4000)])
+    data, exp, lines = [], [], []
+    sp = base
+    for i in range(nfun):
+        f = funs[i]
+        gcps = eff_params(funs[i - 1]) if i > 0 else 0
+        fsize = gcps + f["locals"] + f["saved"]
+        ra = code(i + 1) if i + 1 < nfun else 0
+        nw = fsize // 4
+        if f["kind"] == "none":
+            win = 160 if i == 0 else 40
+            while nw >= win:                      # keep the return address inside the scan window of this callee
+                f["locals"] -= 4
+                nw -= 1
+            fsize = 4 * nw
+            for w in range(nw):
+                data += le_bytes(0 if w == nw - 1 else inert(), 4)
+        else:
+            for _ in range(nw):
+                data += le_bytes(lookalike(), 4)
+        data += le_bytes(ra, 4)
+        sp += fsize + 4
+        if ra:
+            exp.append(dict(instr=ra - 1, resume=ra, sp=sp, trust="scan" if f["kind"] == "none" else "cfi"))
+        lines.append("FUNC %x 100 %x f%d" % (f["off"], f["fpsize"], i))
+        if f["kind"] in ("fd", "both"):
+            lines.append("STACK WIN 4 %x 100 0 0 %x %x %x 0 1 %s" % (f["off"], f["params"], f["saved"], f["locals"], WIN_PROGRAM_PLAIN))
+        if f["kind"] == "both":
+            stale = f["stale"] if f["stale"] != f["params"] else f["params"] + 4
+            lines.append("STACK WIN 0 %x 100 0 0 %x %x %x 0 0 0" % (f["off"], stale, f["saved"], f["locals"]))
+        if f["kind"] == "fpo":
+            lines.append("STACK WIN 0 %x 100 0 0 %x %x %x 0 0 0" % (f["off"], f["params"], f["saved"], f["locals"]))
+        if f["kind"] == "cfi":
+            lines.append("STACK CFI INIT %x 100 .cfa: $esp %d + .ra: .cfa 4 - ^" % (f["off"], fsize + 4))
+    data += le_bytes(0, 4) * 2
+    sym_t = "T|" + "|".join(l.replace(" ", "~") for l in lines)
+    gp = [rng.choice([0x0b0b0b0b, 0, mb + 0x1234])] + [0] * (A["ngp"] - 1)
+    case = fmt_case(0, os_, mb + funs[0]["off"] + 0x10, base, 0, 0, gp, "*", base, data, [(mb, 0x10000, sym_t)])
+    return case, exp
+
+
 def c04_oracle(case, ans):
     bad = c05_oracle(case, ans)
     if bad:
